@@ -653,13 +653,29 @@ func init() {
 	reg("C02", "C02.6", "T8,T4,T5", "alert GC evicts the silencer cache; the cache map is only touched under its lock", func(o *Ob) {
 		e := o.E
 		pg := o.Fn("(*am/silence.Silencer).PostGC")
-		d := o.One(e.Calls(pg, "(*am/silence.cache).delete"), "postgc-delete", "PostGC must evict the cache", pg)
+		// every collected fingerprint is evicted: through cache.delete, or by deleting from the cache's map directly
+		var d ssa.Instruction
+		for _, c := range e.Calls(pg, "(*am/silence.cache).delete") {
+			if o.Check(e.Arg(c, 0) == "recv.cache" && e.Arg(c, 1) == "p0[i]", "postgc-arg", "PostGC must evict every collected fingerprint", c) {
+				d = c
+			}
+		}
+		for _, in := range AllInstrs(pg) {
+			if c, ok := in.(*ssa.Call); ok && isBuiltinCall("delete")(in) && e.X(pg, c.Call.Args[0]) == "recv.cache.entries" {
+				if o.Check(e.X(pg, c.Call.Args[1]) == "p0[i]", "postgc-arg", "PostGC must evict every collected fingerprint", c) {
+					d = c
+				}
+			}
+		}
+		o.Require(d != nil, "postgc-delete", "PostGC must evict the cache", nil)
 		o.Site(d, "evict on alert GC")
-		o.Check(e.Arg(d, 0) == "recv.cache" && e.Arg(d, 1) == "p0[i]", "postgc-arg", "PostGC must evict every collected fingerprint", d)
 		l := e.LoopOf(d)
 		if o.Check(l != nil, "postgc-loop", "PostGC must loop over the collected fingerprints", d) {
-			coll, _ := e.RangeOver(l)
-			o.Check(coll == "p0" && len(e.EarlyExits(l)) == 0, "postgc-all", "PostGC must visit all collected fingerprints", d)
+			o.Check(e.CoversAll(l, "p0") && len(e.EarlyExits(l)) == 0 && !loopBackWithout(o, l, IsInstr(d), nil), "postgc-all", "PostGC must visit all collected fingerprints", d)
+			// the loop itself is skipped at most when nothing was collected
+			nothing := LRe(`\(len\(p0\) == 0\)|\(len\(p0\) < 1\)`, true)
+			skip := (&Walk{Fn: pg, Cut: e.CutContradicting(nothing.Neg()), Barrier: func(in ssa.Instruction) bool { return in.Block() == l.Header }}).FromEntry().Returns()
+			o.Check(len(skip) == 0, "postgc-skipped", "PostGC can return without evicting although fingerprints were collected", firstRet(skip))
 		}
 		// mem.Alerts.gc hands all deleted fingerprints to the callback
 		gc := o.Fn("(*am/provider/mem.Alerts).gc")
